@@ -525,6 +525,10 @@ def check_lexical(case, R):
             must_convert(R, api, "from_stream", join(lex, style, inner), d.rows, d.typ, f"whitespace:{style}", feat)
         # CR-LF line ends: '\r' is not a blank for the lexer; observed only
         may_reject(R, api, "from_stream", join(lex, "lines", inner).replace("\n", "\r\n"), d.rows, d.typ, "crlf")
+        # ... but a FILE with CR-LF (Windows) or bare CR line ends is ordinary text: the file entry points read it like any other
+        must_convert(R, api, "convert", join(lex, "lines", inner).replace("\n", "\r\n"), d.rows, d.typ, "file:crlf", feat)
+        must_convert(R, api, "__call__", join(lex, "lines", inner).replace("\n", "\r\n"), d.rows, d.typ, "file:crlf", feat)
+        must_convert(R, api, "convert", join(lex, "lines", inner).replace("\n", "\r"), d.rows, d.typ, "file:cr", feat)
         # number spellings: every spelling reaches every field of every point
         for shift in range(len(SPELLINGS)):
             ds = Doc(body, (d.label, d.typ), spelled_point(shift))
@@ -980,6 +984,18 @@ def spaces(tier, seed):
                          "alternatives": "one split with every number of alternatives 2..128"}),
     ]
     rep_max = 4 if tier == "quick" else 5
+    twin_max = 6 if tier == "quick" else 7
+
+    def gen_all_equal():
+        # every point of the document identical (same x, y, z, r): sub-branches of the same shape are then indistinguishable by content -
+        # twin alternatives, a twig drawn twice - yet every point is its own node with the parent the document gives it
+        for b in docs_upto(0, twin_max):
+            n_ = npoints(b)
+            if n_ > rep_max:
+                yield (b, (1 << (n_ - 1)) - 1, "all")
+
+    out.append(Space.of("all-points-identical", gen_all_equal, check_repeats,
+                        bounds={"points": [rep_max + 1, twin_max], "note": "all points of the document carry the same coordinates and radius (documents up to the repeated-points bound are covered there)"}))
     out.append(Space.of("repeated-points", lambda: gen_repeats(rep_max), check_repeats,
                         bounds={"points": rep_max, "alternatives": "2-3", "repeating_points": "every non-empty subset of the points after the first",
                                 "what_repeats": ["x y z r (verbatim copy of the parent point)", "x y z only", "r only"]}))
